@@ -5,6 +5,7 @@ package smtp
 import (
 	"net"
 
+	"github.com/inbucket/inbucket/v3/pkg/message"
 	"github.com/rs/zerolog"
 )
 
@@ -19,4 +20,10 @@ func (s *Server) VerifAddr() net.Addr {
 		return nil
 	}
 	return s.listener.Addr()
+}
+
+// VerifManager returns the message manager this server delivers to (the one the assembly
+// gave it), so that a harness can observe the components server.FullAssembly wired together.
+func (s *Server) VerifManager() message.Manager {
+	return s.manager
 }
